@@ -194,6 +194,18 @@ theorem rx2Complete_resp (s : Session) (cfg : Config) (r : RegionId) :
     repeat' split
     all_goals simp
 
+/-- … it reports the exhausted counter space, else `NoAck` for a confirmed uplink, else `RxComplete` -/
+theorem rx2Complete_resp_eq (s : Session) (cfg : Config) (r : RegionId) :
+    (rx2Complete s cfg r).1 =
+      if s.fcntUp = 0xFFFFFFFF then .sessionExpired else if s.confirmed then .noAck else .rxComplete := by
+  unfold rx2Complete
+  by_cases hx : s.fcntUp = 0xFFFFFFFF
+  · simp [hx]
+  · have hx' : (s.fcntUp == 0xFFFFFFFF) = false := by simp [hx]
+    simp only [hx', Bool.false_eq_true, if_false, hx]
+    repeat' split
+    all_goals rfl
+
 /-! ## `Mac::handle_rx` / `handle_rxc` of a joined device -/
 
 def noUp : RxOut := { resp := .noUpdate, downlink := none }
@@ -642,7 +654,8 @@ theorem step_uplink_joined {σ} (g : Rng σ) (m m' : MacState) (rs rs' : σ) (s 
     (hl : LastOk s.fcntDown) (data : List Nat) (fport : Nat) (conf : Bool) (fault : Option Nat)
     (rx1 rx2 : Option (RxView × Int)) (mp1 mp2 : Nat) (hw1 : rxOk rx1 = true) (hw2 : rxOk rx2 = true) (out : Out)
     (h : step g (m, rs) (.uplink data fport conf fault rx1 rx2 mp1 mp2) = .ok ((m', rs'), out)) :
-    ∃ so m1, macSend g m data fport conf rs = .ok (some so, m1, rs') ∧ m1.st = .joined (sentSession s conf) ∧
+    ∃ so m1, macSend g m data fport conf rs = .ok (some so, m1, rs') ∧
+      so.frame = descOf s m.cfg m.region.id data fport conf ∧ m1.st = .joined (sentSession s conf) ∧
       m1.cfg = m.cfg ∧ UplinkTail m1 (sentSession s conf) fault rx1 rx2 mp1 mp2 so m' out := by
   unfold step at h
   simp only at h
@@ -660,7 +673,7 @@ theorem step_uplink_joined {σ} (g : Rng σ) (m m' : MacState) (rs rs' : σ) (s 
     obtain ⟨⟨r, dl, m2⟩, hc, h⟩ := Except.bind_eq_ok h
     simp only [pure, Except.pure, Except.ok.injEq, Prod.mk.injEq] at h
     obtain ⟨⟨rfl, rfl⟩, rfl⟩ := h
-    refine ⟨_, m1, hsend, hst1, by rw [hm1], ?_⟩
+    refine ⟨_, m1, hsend, rfl, hst1, by rw [hm1], ?_⟩
     cases hsc : specCycle (sentSession s conf).fcntDown rx1 rx2 mp1 mp2 with
     | accepted N d snr =>
       simp only [hsc] at hc ⊢
@@ -682,7 +695,7 @@ theorem step_uplink_joined {σ} (g : Rng σ) (m m' : MacState) (rs rs' : σ) (s 
     obtain ⟨m2, hc, h⟩ := Except.bind_eq_ok h
     simp only [pure, Except.pure, Except.ok.injEq, Prod.mk.injEq] at h
     obtain ⟨⟨rfl, rfl⟩, rfl⟩ := h
-    refine ⟨_, m1, hsend, hst1, by rw [hm1], m2, ?_, rfl, rfl⟩
+    refine ⟨_, m1, hsend, rfl, hst1, by rw [hm1], m2, ?_, rfl, rfl⟩
     cases hsc : specFaulted (sentSession s conf).fcntDown k rx1 rx2 mp1 mp2 with
     | accepted N d snr =>
       simp only [hsc] at hc ⊢
